@@ -76,7 +76,10 @@ type fOp struct {
 }
 
 // uOp installs one FIB universe; enabled only as the very first step of a history.
-type uOp struct{ routes []fwsim.Route }
+type uOp struct {
+	routes []fwsim.Route
+	strats []fwsim.StrategyChoice // per-prefix strategy choices ("" = as configured)
+}
 
 type opDef struct {
 	i *iOp
@@ -107,6 +110,7 @@ type slice struct {
 	routes    []fwsim.Route // initial FIB (unless universes)
 	universes bool          // first step chooses a subset of the four routes with costs {1,2}
 	costs     bool          // first step chooses two or three next hops of /a with boundary costs
+	strats    bool          // first step chooses a strategy (none / best-route / multicast) for each of stratPrefixes
 	iops      []iOp
 	dops      []dOp
 	tops      []time.Duration
@@ -143,8 +147,31 @@ var slices = map[string]slice{
 	// next hops; best-route must use the numerically lowest usable cost
 	"cost": {
 		costs: true,
-		iops:  []iOp{{face: fwsim.L1, name: "/a", nonce: "fresh", hl: -1}, {face: fwsim.N2, name: "/a", nonce: "fresh", hl: -1}},
-		tops:  []time.Duration{600 * time.Millisecond},
+		// (the arrival face is unusable as a next hop: with arrivals on N2, N3 and N4 the unusable
+		// next hop is the first, a middle and the last one of the entry, at every cost order)
+		iops: []iOp{{face: fwsim.L1, name: "/a", nonce: "fresh", hl: -1}, {face: fwsim.N2, name: "/a", nonce: "fresh", hl: -1},
+			{face: fwsim.N3, name: "/a", nonce: "fresh", hl: -1}, {face: fwsim.N4, name: "/a", nonce: "fresh", hl: -1}},
+		tops: []time.Duration{600 * time.Millisecond},
+	},
+	// per-prefix strategy choices: the first step assigns none / best-route / multicast to each of
+	// /a, /a/b, /c, /c/h (81 assignments, on top of the configured default for "/"); every FIB entry
+	// has two next hops, so that best-route and multicast are told apart by what is sent. Interests
+	// with and without a forwarding hint outside the producer region: the STRATEGY is the one chosen
+	// for the Interest name, the NEXT HOPS are those of the hint's FIB entry; name and hint lie
+	// under different prefixes (/c with hint /a/b/h, /a with hint /c/h, /a/b with hint /c/h).
+	// Strategy choices also change between packets.
+	"strat": {
+		strats: true,
+		routes: []fwsim.Route{{Prefix: "/", Face: fwsim.N2, Cost: 1}, {Prefix: "/a", Face: fwsim.N3, Cost: 1}, {Prefix: "/a", Face: fwsim.N2, Cost: 2},
+			{Prefix: "/a/b", Face: fwsim.N4, Cost: 2}, {Prefix: "/a/b", Face: fwsim.N2, Cost: 1}, {Prefix: "/c", Face: fwsim.N4, Cost: 1}, {Prefix: "/c", Face: fwsim.N2, Cost: 2},
+			{Prefix: "/c/h", Face: fwsim.L5, Cost: 1}, {Prefix: "/c/h", Face: fwsim.N3, Cost: 1}},
+		iops: append(prod([]uint64{fwsim.L1}, []string{"/a", "/a/b", "/c"}, func(f uint64, n string) []iOp {
+			return []iOp{{face: f, name: n, nonce: "fresh", hl: -1}, {face: f, name: n, nonce: "fresh", hl: -1, hint: "out"}, {face: f, name: n, nonce: "fresh", hl: -1, hint: "out2"}}
+		}), iOp{face: fwsim.N3, name: "/c", nonce: "fresh", hl: -1, hint: "out"}, iOp{face: fwsim.N4, name: "/a", nonce: "fresh", hl: -1, hint: "out2"},
+			iOp{face: fwsim.L1, name: "/c", nonce: "fresh", hl: -1, hint: "out2+out"}, iOp{face: fwsim.L1, name: "/a", nonce: "fresh", hl: -1, hint: "in"}),
+		tops: []time.Duration{600 * time.Millisecond},
+		fops: []fOp{{kind: "set", prefix: "/a", strat: "other"}, {kind: "unset", prefix: "/a"}, {kind: "set", prefix: "/c", strat: "other"}, {kind: "set", prefix: "/a/b", strat: "other"},
+			{kind: "set", prefix: "/", strat: "other"}},
 	},
 	// FIB universes: every subset of {(/,N2),(/a,N2),(/a,N3),(/a/b,N4)} with costs from {1,2}
 	// (81 universes incl. equal-cost ties), each with and without the sibling route (/c,N4), as
@@ -285,6 +312,31 @@ var slices = map[string]slice{
 
 // twinOf: the name whose latest nonce a "sib" Interest carries (names that differ in the type of
 // one component only).
+// stratPrefixes: the prefixes a strategy universe assigns a strategy to.
+var stratPrefixes = []string{"/a", "/a/b", "/c", "/c/h"}
+
+// Nonce values. The property speaks of nonces only through equality (and of Interests LACKING a
+// nonce); the 32-bit VALUE must not matter. "std": the k-th fresh nonce is 0x3000+k. "edge" and
+// "edge2": the fresh nonces run through the boundary values of the 32-bit range first - 0 (a legal
+// nonce, not "no nonce"), 2^32-1, 1, 2^31, ... - in two different orders, so that each boundary
+// value is the first, the replaced, the repeated and the dead nonce of some history.
+var edgeNonces = []uint32{0, 0xFFFFFFFF, 1, 0x80000000, 0xFFFFFFFE, 2, 0x7FFFFFFF, 0x100, 0xFFFF, 0x10000, 0xFF, 0x80000001}
+
+func nonceValue(mode string, k uint32) uint32 { // k = 1, 2, ...
+	i := int(k) - 1
+	switch mode {
+	case "edge":
+		if i < len(edgeNonces) {
+			return edgeNonces[i]
+		}
+	case "edge2":
+		if i < len(edgeNonces) {
+			return edgeNonces[i^1] // pairs swapped: 2^32-1, 0, 2^31, 1, ...
+		}
+	}
+	return 0x3000 + k
+}
+
 var twinOf = map[string]string{"/a/x": "/a/264=x", "/a/264=x": "/a/x", "/a/32=x": "/a/x"}
 
 // ---- system ----
@@ -298,6 +350,7 @@ type sys struct {
 	allOps  []explore.Op
 	uni     bool
 	old     bool // the alphabet repeats the nonce before the latest one
+	nv      string // nonce values: "" (std) | edge | edge2
 	sib     bool // the alphabet repeats, under one name, the latest nonce issued for its twin name
 }
 
@@ -337,21 +390,26 @@ func build(cfgName string) explore.System {
 	// producer regions as configured (order matters to networkRegionTable.Add): the reference
 	// treats them as a set - a name is in the producer region iff some listed region is a prefix
 	regions := []string{"/r"}
+	nv := ""
 	if f := strings.Fields(cfgName); len(f) >= 5 {
-		switch f[4] {
-		case "regions=/r/site,/r":
-			regions = []string{"/r/site", "/r"}
-		case "regions=/r,/r/site":
-			regions = []string{"/r", "/r/site"}
-		default:
-			report.Fatal("bad region variant in %q", cfgName)
+		for _, x := range f[4:] {
+			switch x {
+			case "regions=/r/site,/r":
+				regions = []string{"/r/site", "/r"}
+			case "regions=/r,/r/site":
+				regions = []string{"/r", "/r/site"}
+			case "nv=edge", "nv=edge2":
+				nv = strings.TrimPrefix(x, "nv=")
+			default:
+				report.Fatal("bad variant %q in %q", x, cfgName)
+			}
 		}
 	}
 	slc, ok := slices[sl]
 	if !ok {
 		report.Fatal("unknown slice %q", sl)
 	}
-	s := &sys{cfgName: cfgName, defs: map[string]opDef{}, uni: slc.universes || slc.costs}
+	s := &sys{cfgName: cfgName, defs: map[string]opDef{}, uni: slc.universes || slc.costs || slc.strats, nv: nv}
 	s.cfg = fwsim.Config{Routes: slc.routes, Regions: regions, DnlLifetime: slc.dnlLife}
 	for _, o := range slc.iops {
 		s.old = s.old || o.nonce == "old"
@@ -417,6 +475,27 @@ func build(cfgName string) explore.System {
 					add(fmt.Sprintf("U(N2=%s,N3=%s,N4=%s)", boundaryLabels[i], boundaryLabels[j], boundaryLabels[k]), opDef{u: &uOp{routes: []fwsim.Route{{Prefix: "/a", Face: fwsim.N2, Cost: c2}, {Prefix: "/a", Face: fwsim.N3, Cost: c3}, {Prefix: "/a", Face: fwsim.N4, Cost: c4}}}})
 				}
 			}
+		}
+	}
+	if slc.strats {
+		// odometer over {no choice, best-route, multicast}^4
+		n := 1
+		for range stratPrefixes {
+			n *= 3
+		}
+		for code := 0; code < n; code++ {
+			var sc []fwsim.StrategyChoice
+			lab := []string{}
+			c := code
+			for _, p := range stratPrefixes {
+				d := c % 3
+				c /= 3
+				lab = append(lab, p+"="+[]string{"-", "br", "mc"}[d])
+				if d > 0 {
+					sc = append(sc, fwsim.StrategyChoice{Prefix: p, Strategy: []string{"", fwsim.BestRoute, fwsim.Multicast}[d]})
+				}
+			}
+			add("S("+strings.Join(lab, ",")+")", opDef{u: &uOp{strats: sc}})
 		}
 	}
 	// simplest first: plain fresh Interests, Data, clock, FIB changes, then the richer Interests
@@ -533,6 +612,10 @@ func (s *sys) step(in *inst, op explore.Op) (v []report.Violation) {
 			in.sim.AddRoute(rt.Prefix, rt.Face, rt.Cost)
 			r.addRoute(rt.Prefix, rt.Face, rt.Cost)
 		}
+		for _, sc := range d.u.strats {
+			in.sim.SetStrategy(sc.Prefix, sc.Strategy)
+			r.strat[sc.Prefix] = sc.Strategy
+		}
 	case d.f != nil:
 		o := d.f
 		switch o.kind {
@@ -560,7 +643,7 @@ func (s *sys) step(in *inst, op explore.Op) (v []report.Violation) {
 		switch o.nonce {
 		case "fresh":
 			r.nonceCtr++
-			nonce = 0x3000 + r.nonceCtr
+			nonce = nonceValue(s.nv, r.nonceCtr)
 		case "dup":
 			nonce = r.lastNonce[o.name]
 		case "old":
@@ -711,6 +794,12 @@ func (s *sys) Canon(i any) string {
 		for _, f := range fs {
 			rc := e.recs[f]
 			fmt.Fprintf(&b, " i%d:%s:%s", f, nonceName(k.name, rc.nonce), fwsim.Saturate(rc.expiry.Sub(now), 0, time.Hour))
+			// displaced pending Interests whose nonce can still be repeated
+			for _, d := range rc.displaced {
+				if nn := nonceName(k.name, d.nonce); nn != "o" && now.Before(d.expiry) {
+					fmt.Fprintf(&b, "(displaced %s:%s first=%s)", nn, d.expiry.Sub(now), fwsim.Saturate(now.Sub(r.firstSeen[pairKey(k.name, d.nonce)]), 0, r.dnlLife))
+				}
+			}
 		}
 		fs = fs[:0]
 		for f := range e.fwds {
@@ -831,6 +920,7 @@ func configs(th bool) []explore.Config {
 		dnl("tiny", "6s", 6, true)
 		dnl("typed", "6s", 10, false)
 		dnl("burst", "6s", 6, false)
+		dnl("edge", "6s", 10, false)
 	} else {
 		dnl("full", "6s", 12, false)
 		dnl("full", "600ms", 12, false)
@@ -841,12 +931,18 @@ func configs(th bool) []explore.Config {
 		dnl("typed", "600ms", 12, false)
 		dnl("burst", "6s", 8, false)
 		dnl("burst", "600ms", 8, false)
+		dnl("edge", "6s", 12, false)
+		dnl("edge", "600ms", 12, false)
 	}
 	if !th {
 		// every slice under both strategies; cache and FIB implementation rotate so that each of
 		// the eight combinations is used by at least one slice (route: universe choice + 3 steps)
 		add("dead", "br", "cs0", "tree", 10)
 		add("dead", "mc", "cs1", "ht", 9)
+		add("dead", "br", "cs1", "ht nv=edge", 9) // boundary nonce values (0, 2^32-1, 1, ...)
+		add("dead", "mc", "cs0", "tree nv=edge2", 8)
+		add("strat", "br", "cs0", "tree", 3) // strategy universe + 2 steps
+		add("strat", "mc", "cs1", "ht", 3)
 		add("ctype", "br", "cs0", "ht", 5)
 		add("ctype", "mc", "cs1", "tree", 5)
 		add("nexthop", "br", "cs1", "tree", 7)
@@ -854,7 +950,7 @@ func configs(th bool) []explore.Config {
 		add("adhoc", "br", "cs0", "tree", 5)
 		add("adhoc", "mc", "cs1", "ht", 5)
 		add("nonce", "br", "cs1", "ht", 5)
-		add("nonce", "mc", "cs0", "tree", 5)
+		add("nonce", "mc", "cs0", "tree nv=edge", 5)
 		add("hint", "br", "cs0", "tree", 4)
 		add("hint", "mc", "cs1", "ht", 4)
 		add("hint", "mc", "cs0", "tree regions=/r/site,/r", 4)
@@ -869,7 +965,7 @@ func configs(th bool) []explore.Config {
 		add("cost", "mc", "cs0", "ht", 2)
 		nd("audit", "nexthop br cs1 tree", 3)
 		nd("history search", "tiny br cs0 tree", 6)
-		nd("history search", "tiny mc cs1 ht", 6)
+		nd("history search", "tiny mc cs1 ht nv=edge", 6)
 		add("route", "br", "cs0", "tree", 5)
 		add("route", "mc", "cs0", "ht", 4)
 		return c
@@ -886,6 +982,10 @@ func configs(th bool) []explore.Config {
 		for _, cs := range []string{"cs0", "cs1"} {
 			for _, fib := range []string{"tree", "ht"} {
 				add("dead", st, cs, fib, 13)
+				add("dead", st, cs, fib+" nv=edge", 11)
+				add("dead", st, cs, fib+" nv=edge2", 10)
+				add("strat", st, cs, fib, 4)
+				add("nonce", st, cs, fib+" nv=edge", 5)
 				add("nexthop", st, cs, fib, 8)
 				add("adhoc", st, cs, fib, 6)
 				add("nonce", st, cs, fib, 6)
@@ -909,7 +1009,7 @@ func main() {
 			if th {
 				return 25 * time.Minute
 			}
-			return 95 * time.Second
+			return 90 * time.Second
 		},
 		Extra: func(rep *report.Reporter, cov report.Coverage) {
 			if os.Getenv("VERIF_ONLY") != "" {
@@ -924,13 +1024,13 @@ func main() {
 			}
 			cov["oracle_branches_exercised"] = o
 		},
-		Rule: "BFS over histories of Interest arrivals (names /a,/a/b,/c, and /a/x,/a/264=x,/a/32=x which differ in the TYPE of one component only, with a FIB entry under one typed name and routes added/removed under another, and the latest nonce of one name repeated under its twin name; nonce fresh|repeated|absent; hop limit absent|0|1|2; forwarding hint none|in-region|in-nested-region|out-of-region|(out,in)|(in,out)|(out,out'), producer regions [/r], [/r/site,/r], [/r,/r/site]; NextHopFaceId none|N2|self|missing on a face with and one without consumer-controlled forwarding; local, non-local and ad-hoc arrival faces), Data arrivals (by name, echoing a live token), clock steps 100/400/600 ms and 5 s, and FIB/strategy changes between packets (AddRoute, RemoveRoute, SetStrategy, UnsetStrategy) on one real fw.Thread with real PIT-CS, dead nonce list, FIB (tree / hash table) and strategies; a dead-nonce slice (one name, nonce fresh|latest|the one before the latest from two faces, Data, clock steps 100/600 ms, dead nonce list configured with a 1 s lifetime) explored to depth 9-10 (thorough: 13, and to depth 7 without de-duplication); forwarding hints with two delegations in either order; FIB universes: all 81 subsets of {(/,N2),(/a,N2),(/a,N3),(/a/b,N4)} with costs {1,2}, each with and without a sibling route (/c,N4), as first step of the route slice, every ordered pair and triple of next-hop costs from {0,1,2^31,2^32,2^63-1,2^63,2^64-1} as first step of the cost slice, plus fixed FIBs with ties, a local and an ad-hoc next hop; every Interest SendPacket is compared with a three-valued reference (C02.nh/noback/best/first/drop/suppress/token); states de-duplicated on reference + white-box PIT-CS dump + FIB dump + dead-nonce expiry-queue items of repeatable nonces. Separately, the real table.DeadNonceList on its own (dnl.go): histories of Insert (2 names x 2 nonces), clock steps 0.4/0.7/1.0 x the configured lifetime (6 s, 600 ms; thorough also 100 ms) with and without a reaper pass, RemoveExpiredEntries alone, Find of every key after every step, against a three-valued record-lifetime reference (C02.drop: recorded at t => found before t+L; C02.first: never recorded => not found), with de-duplication (to the fixpoint, reached at depth 9) and as a history search without de-duplication over a two-key alphabet (depth 6 / 7); the same search over keys whose names differ in the type of one component only (/a/x, /a/264=x, /a/32=x with one nonce: variant typed, fixpoint at depth 8) and with a burst step that records 205 distinct nonces at once, more than two reaper passes remove (the pass stops after 100), every one of them looked up after every step (variant burst, depth 6 / 8)",
+		Rule: "BFS over histories of Interest arrivals (names /a,/a/b,/c, and /a/x,/a/264=x,/a/32=x which differ in the TYPE of one component only, with a FIB entry under one typed name and routes added/removed under another, and the latest nonce of one name repeated under its twin name; nonce fresh|repeated|absent; hop limit absent|0|1|2; forwarding hint none|in-region|in-nested-region|out-of-region|(out,in)|(in,out)|(out,out'), producer regions [/r], [/r/site,/r], [/r,/r/site]; NextHopFaceId none|N2|self|missing on a face with and one without consumer-controlled forwarding; local, non-local and ad-hoc arrival faces), Data arrivals (by name, echoing a live token), clock steps 100/400/600 ms and 5 s, and FIB/strategy changes between packets (AddRoute, RemoveRoute, SetStrategy, UnsetStrategy) on one real fw.Thread with real PIT-CS, dead nonce list, FIB (tree / hash table) and strategies; a dead-nonce slice (one name, nonce fresh|latest|the one before the latest from two faces, Data, clock steps 100/600 ms, dead nonce list configured with a 1 s lifetime) explored to depth 9-10 (thorough: 13, and to depth 7 without de-duplication); forwarding hints with two delegations in either order; FIB universes: all 81 subsets of {(/,N2),(/a,N2),(/a,N3),(/a/b,N4)} with costs {1,2}, each with and without a sibling route (/c,N4), as first step of the route slice, every ordered pair and triple of next-hop costs from {0,1,2^31,2^32,2^63-1,2^63,2^64-1} as first step of the cost slice, plus fixed FIBs with ties, a local and an ad-hoc next hop; every Interest SendPacket is compared with a three-valued reference (C02.nh/noback/best/first/drop/suppress/token); NONCE VALUES: the k-th fresh nonce is 0x3000+k, or (configurations nv=edge / nv=edge2: dead, nonce and tiny slices) runs through 0, 2^32-1, 1, 2^31, 2^32-2, 2, ... in two orders, so that each boundary value is the first, the replaced, the repeated and the dead nonce of some history (0 is a nonce, not the absence of one); PER-PREFIX STRATEGY CHOICES (strat slice): the first step assigns none|best-route|multicast to each of /a, /a/b, /c, /c/h (81 assignments) on top of the default, every FIB entry has two next hops, Interests carry no hint or a hint outside the region whose prefix has ANOTHER strategy choice than the name's (strategy by name, next hops by hint), SetStrategy/UnsetStrategy between packets; in the cost slice the Interest arrives on L1, N2, N3 and N4, so the unusable (arrival) next hop is the first, a middle and the last of the entry at every cost order; states de-duplicated on reference + white-box PIT-CS dump + FIB dump + dead-nonce expiry-queue items of repeatable nonces. Separately, the real table.DeadNonceList on its own (dnl.go): histories of Insert (2 names x 2 nonces), clock steps 0.4/0.7/1.0 x the configured lifetime (6 s, 600 ms; thorough also 100 ms) with and without a reaper pass, RemoveExpiredEntries alone, Find of every key after every step, against a three-valued record-lifetime reference (C02.drop: recorded at t => found before t+L; C02.first: never recorded => not found), with de-duplication (to the fixpoint, reached at depth 9) and as a history search without de-duplication over a two-key alphabet (depth 6 / 7); the same search over keys whose names differ in the type of one component only (/a/x, /a/264=x, /a/32=x with one nonce: variant typed, fixpoint at depth 8), over keys at the ends of the 32-bit nonce range ((/a,0), (/a,2^32-1), (/a/b,0), (/a/b,1): variant edge) and with a burst step that records 205 distinct nonces at once, more than two reaper passes remove (the pass stops after 100), every one of them looked up after every step (variant burst, depth 6 / 8)",
 		Assumptions: []string{
 			"faces are simulated at the dispatch.Face seam (verif/harness/fwsim): a received frame becomes a defn.Pkt exactly as NDNLPLinkService.handleIncomingFrame + dispatchInterest/dispatchData build it; NextHopFaceId is honoured only on faces with local fields enabled; one forwarding thread (id 0)",
 			"'usable' is three-valued: a next hop equal to a point-to-point arrival face is unusable (C02.noback); a next hop that is the ad-hoc arrival face, that itself holds an in-record of the same PIT entry, or that is non-local while the decremented hop limit is 0, may or may not be used; every other next hop of the LPM entry must count as usable",
-			"WHICH nonces are recorded as dead is read from the real dead nonce list before the arrival, and believed only for a (name, nonce) that arrived in an Interest before (a nonce cannot have been recorded as dead for a name no Interest carried it under; an Interest with a never-seen pair is judged like any other) (the property text does not say when a nonce is to be recorded, so no own 'must be dead by now' set is kept: e.g. whether the replaced nonce of an aggregated retransmission is recorded is not judged); HOW LONG a record lasts is not adopted: a (name, nonce) first seen in the list at t, or inserted into the list on its own while not listed, must be found until t + the configured lifetime; a report of an entry that is already listed may or may not extend it (the shipped code keeps the older expiry); when records disappear is left to C08; 'still pending from another face' = an unexpired record of the same PIT entry (name, selectors, forwarding hint) in the reference; same-nonce retransmissions from the same face, repeated nonces that are neither dead nor pending, retransmissions outside the suppression window, and retransmissions that carry NextHopFaceId may or may not be forwarded",
+			"WHICH nonces are recorded as dead is read from the real dead nonce list before the arrival, and believed only for a (name, nonce) that arrived in an Interest before (a nonce cannot have been recorded as dead for a name no Interest carried it under; an Interest with a never-seen pair is judged like any other) (the property text does not say when a nonce is to be recorded, so no own 'must be dead by now' set is kept: e.g. whether the replaced nonce of an aggregated retransmission is recorded is not judged); HOW LONG a record lasts is not adopted: a (name, nonce) first seen in the list at t, or inserted into the list on its own while not listed, must be found until t + the configured lifetime; a report of an entry that is already listed may or may not extend it (the shipped code keeps the older expiry); when records disappear is left to C08; 'still pending from another face' = an unexpired record of the same PIT entry (name, selectors, forwarding hint) in the reference; an Interest whose nonce was replaced in its face's record by a same-face retransmission with another nonce counts as still pending from that face (it was neither satisfied nor did its lifetime end) while the face's record exists and the forwarder's own record held that nonce when it was replaced; because the forwarder can remember such a nonce only through the dead nonce list, whose lifetime is configurable, the drop of an Interest repeating it from another face is demanded only while less than the configured dead-nonce lifetime has passed since that (name, nonce) first arrived, and is otherwise left open; same-nonce retransmissions from the same face, repeated nonces that are neither dead nor pending, retransmissions outside the suppression window, and retransmissions that carry NextHopFaceId may or may not be forwarded",
 			"whether Data consumes a pending Interest and when expired records disappear is adopted from the white-box PIT dump (C01 and C08 judge that); upstream transmission times and nonces are tracked from the observed sends only, never from the forwarder's out-records",
-			"equal canonical state (reference entries with record/transmission ages saturated at expiry and at the 500 ms window, reference FIB and strategy choices, per-name nonce and dead-nonce status (in the ctype slice also for the pair name + latest nonce of the twin name: arrived before, listed, queue item), cache contents, private PIT-CS dump with queue priorities, private FIB dump) implies equal futures",
+			"equal canonical state (reference entries with record/transmission ages saturated at expiry and at the 500 ms window, reference FIB and strategy choices, per-name nonce and dead-nonce status (in the ctype slice also for the pair name + latest nonce of the twin name: arrived before, listed, queue item), displaced pending Interests whose nonce the alphabet can still repeat (remaining lifetime, age of the pair's first arrival saturated at the dead-nonce lifetime), cache contents, private PIT-CS dump with queue priorities, private FIB dump) implies equal futures",
 		},
 	})
 }
